@@ -153,7 +153,7 @@ def eval_traces(ctx, tf, tfl, rng, n_cfg):
     params = [rng.integers(-64, 65, size=nparam) / 32.0 for _ in range(3)]
     xs = [xmaker() for _ in range(4)]
 
-    def call(ps, X):        # X: (B, U, xdim)
+    def call(ps, X, graph=False):        # X: (B, U, xdim)
       layer = make_layer(len(ps))
       set_params(layer, ps)
       U = len(ps)
@@ -164,7 +164,13 @@ def eval_traces(ctx, tf, tfl, rng, n_cfg):
       inp = np.asarray(inp)
       if what in ("PwlEval", "PwlMissEval", "CatEval"):
         inp = X[:, :, 0]          # (B, U): one input column per unit
-      y = layer(tf.constant(inp.astype(np.int32 if is_int else np.float32)))
+      t_in = tf.constant(inp.astype(np.int32 if is_int else np.float32))
+      if graph:
+        # traced once with an unknown batch size (what model.fit / serving do): nothing may depend on the static batch
+        fn = tf.function(lambda z: layer(z), input_signature=[tf.TensorSpec([None] + list(t_in.shape[1:]), t_in.dtype)])
+        y = fn(t_in)
+      else:
+        y = layer(t_in)
       return np.asarray(y).reshape(X.shape[0], U)
 
     def xdim_is_per_unit(_):
@@ -200,7 +206,7 @@ def eval_traces(ctx, tf, tfl, rng, n_cfg):
           Xi[0, :] = rng.integers(1, len(xs), size=U)
           Xi[0, rep % U] = 0
         X = np.stack([[xs[Xi[b, u]] for u in range(U)] for b in range(B)]).reshape(B, U, -1)
-        y = call(pu, X)
+        y = call(pu, X, graph=bool(rep % 2))
         t.multi([keyof(pu[u], xs[Xi[b, u]]) for b in range(B) for u in range(U)],
                 [y[b, u:u + 1] for b in range(B) for u in range(U)])
     ctx.nontrivial.add(what + str(len(traces)))
